@@ -7,6 +7,7 @@
 import Demeter.Drv.Json
 import Demeter.Deribit
 import Demeter.Deribit.Run
+import Demeter.Deribit.Guard
 namespace Demeter.Drv
 open Demeter Demeter.Deribit Lean
 
@@ -181,7 +182,8 @@ def answer (o : Outcome) (s : DState) : Json :=
 def stepH : JHandler := fun j => do
   let s ← stateOf (← jObj j "state")
   let op ← opOf (← jObj j "op")
-  let (o, s') := step (dctxOf j) (cfgOf j) s op
+  -- `stepE`: `step` with the exception `update()` raises when a due in-the-money position has underlying price 0
+  let (o, s') := stepE (dctxOf j) (cfgOf j) s op
   pure (answer o s')
 
 /-- C16: the bar loop.  `books` is a list of books, each bar `{"now","flagOpen","book":<index>,"price","priceDec","ops":[…]}` -/
